@@ -1,6 +1,7 @@
 package main
 
 import (
+	"go/ast"
 	"fmt"
 	"go/types"
 	"sort"
@@ -335,14 +336,14 @@ func errState(p *Path, e *Term) int {
 }
 
 func exec(c *Ctx, f *ssa.Function, dom *Domain, visits int) ([]*Path, bool) {
-	paths, ok := pathsOf(c.P, f, dom, execOpts{MaxVisits: visits, Pure: c.Mod.PureCall})
+	paths, ok := pathsOf(c.P, f, dom, execOpts{MaxVisits: visits, Pure: c.Mod.PureCall, InlineCallee: inlineNewHelpers})
 	c.R.count("paths", len(paths))
 	c.R.count("functions_path_analysed", 1)
 	return paths, ok
 }
 
 func execNoInline(c *Ctx, f *ssa.Function, dom *Domain, visits int) ([]*Path, bool) {
-	paths, ok := pathsOf(c.P, f, dom, execOpts{MaxVisits: visits, Pure: c.Mod.PureCall, NoInline: true})
+	paths, ok := pathsOf(c.P, f, dom, execOpts{MaxVisits: visits, Pure: c.Mod.PureCall, NoInline: true, InlineCallee: inlineNewHelpers})
 	c.R.count("paths", len(paths))
 	c.R.count("functions_path_analysed", 1)
 	return paths, ok
@@ -478,7 +479,7 @@ func (c *Ctx) resolveDenseRoles() {
 		if f == nil {
 			return ""
 		}
-		ps, _ := pathsOf(c.P, f, nil, execOpts{MaxVisits: 1, Pure: c.Mod.PureCall})
+		ps, _ := pathsOf(c.P, f, nil, execOpts{MaxVisits: 1, Pure: c.Mod.PureCall, InlineCallee: inlineNewHelpers})
 		for _, p := range ps {
 			if p.RetNil(1) == 1 && len(p.RetT) == 2 && p.RetT[0].Op == "field" && p.RetT[0].Args[0].isParam(0) {
 				return p.RetT[0].Sym
@@ -512,4 +513,104 @@ func (c *Ctx) resolveDenseRoles() {
 		}
 	}
 	dr = r
+}
+
+// knownHelpers: the unexported functions and methods of the module that the rules know by name or by role
+// (they are matched as call effects, summarised, or analysed on their own), keyed package.[Receiver.]name.
+// Any OTHER unexported module function met on a path — typically a helper extracted by a refactoring — is
+// executed inline, so that the rules see the same stores, calls and branches as before the extraction.
+var knownHelpers = map[string]bool{
+	"dataset.Dataset.sort": true,
+	"ddsketch.DDSketch.decodeAndMergeWith": true, "ddsketch.changeStoreMapping": true,
+	"encoding.initUvarint64Sizes": true, "encoding.initVarfloat64Sizes": true, "encoding.newSubFlag": true,
+	"mapping.buildFloat64": true, "mapping.getExponent": true, "mapping.getSignificandPlusOne": true,
+	"mapping.CubicallyInterpolatedMapping.approximateInverseLog": true, "mapping.CubicallyInterpolatedMapping.approximateLog": true,
+	"mapping.LinearlyInterpolatedMapping.approximateInverseLog": true, "mapping.LinearlyInterpolatedMapping.approximateLog": true,
+	"mapping.CubicallyInterpolatedMapping.string": true, "mapping.LinearlyInterpolatedMapping.string": true, "mapping.LogarithmicMapping.string": true,
+	"mapping.decodeLogLikeIndexMapping": true, "mapping.withinTolerance": true,
+	"stat.SummaryStatistics.sumWithCompensation": true,
+	"store.BufferedPaginatedStore.compact": true, "store.BufferedPaginatedStore.index": true, "store.BufferedPaginatedStore.lineIndex": true,
+	"store.BufferedPaginatedStore.minIndexWithCumulCount": true, "store.BufferedPaginatedStore.newPagesLen": true,
+	"store.BufferedPaginatedStore.page": true, "store.BufferedPaginatedStore.pageIndex": true, "store.BufferedPaginatedStore.sortBuffer": true,
+	"store.CollapsingHighestDenseStore.adjust": true, "store.CollapsingHighestDenseStore.extendRange": true,
+	"store.CollapsingHighestDenseStore.getNewLength": true, "store.CollapsingHighestDenseStore.normalize": true,
+	"store.CollapsingLowestDenseStore.adjust": true, "store.CollapsingLowestDenseStore.extendRange": true,
+	"store.CollapsingLowestDenseStore.getNewLength": true, "store.CollapsingLowestDenseStore.normalize": true,
+	"store.max": true, "store.min": true,
+	"store.DenseStore.adjust": true, "store.DenseStore.centerCounts": true, "store.DenseStore.encodeDensely": true,
+	"store.DenseStore.encodeSparsely": true, "store.DenseStore.extendRange": true, "store.DenseStore.getNewLength": true,
+	"store.DenseStore.normalize": true, "store.DenseStore.resetBins": true, "store.DenseStore.shiftCounts": true,
+	"store.DenseStore.string": true, "store.SparseStore.orderedBins": true,
+}
+
+func helperKey(f *ssa.Function) string {
+	k := ""
+	if f.Pkg != nil {
+		k = f.Pkg.Pkg.Name() + "."
+	}
+	if r := f.Signature.Recv(); r != nil {
+		t := r.Type()
+		if p, ok := t.(*types.Pointer); ok {
+			t = p.Elem()
+		}
+		if n, ok := t.(*types.Named); ok {
+			k += n.Obj().Name() + "."
+		}
+	}
+	return k + f.Name()
+}
+
+func inlineNewHelpers(f *ssa.Function) bool {
+	if !inModule(f) || f.Synthetic != "" || f.Parent() != nil {
+		return false
+	}
+	n := f.Name()
+	if n == "" || n == "init" || ast.IsExported(n) || knownHelpers[helperKey(f)] {
+		return false
+	}
+	return true
+}
+
+// execPlain: paths of f without interprocedural inlining (for rules that treat helper calls by role).
+func execPlain(c *Ctx, f *ssa.Function, dom *Domain, visits int) ([]*Path, bool) {
+	paths, ok := pathsOf(c.P, f, dom, execOpts{MaxVisits: visits, Pure: c.Mod.PureCall})
+	c.R.count("paths", len(paths))
+	c.R.count("functions_path_analysed", 1)
+	return paths, ok
+}
+
+// withNewHelpers: f followed by the unexported module functions it (transitively, statically) calls that the
+// rules do not know by name — the helpers a refactoring may have split off f. Instruction-level rules scan them
+// together with f, as the path rules execute them inline.
+func withNewHelpers(fs ...*ssa.Function) []*ssa.Function {
+	seen := map[*ssa.Function]bool{}
+	var out []*ssa.Function
+	var visit func(f *ssa.Function)
+	visit = func(f *ssa.Function) {
+		if f == nil || seen[f] {
+			return
+		}
+		seen[f] = true
+		out = append(out, f)
+		var scan func(g *ssa.Function)
+		scan = func(g *ssa.Function) {
+			for _, b := range g.Blocks {
+				for _, in := range b.Instrs {
+					if ci, ok := in.(ssa.CallInstruction); ok {
+						if cal, ok := ci.Common().Value.(*ssa.Function); ok && inlineNewHelpers(cal) && len(cal.Blocks) > 0 {
+							visit(cal)
+						}
+					}
+				}
+			}
+			for _, an := range g.AnonFuncs {
+				scan(an)
+			}
+		}
+		scan(f)
+	}
+	for _, f := range fs {
+		visit(f)
+	}
+	return out
 }
